@@ -39,6 +39,8 @@ Proof.
   - (* CSPPut: only while stopped *)
     intros Hst. exfalso. ctl_cases Hctl. destruct Hfl as (F1 & _). unfold ctl in F1. rewrite Ec in F1.
     destruct (F1 eq_refl) as [F _]. congruence.
+  - intros Hst. exfalso. ctl_cases Hctl. destruct Hfl as (F1 & _). unfold ctl in F1. rewrite Ec in F1.
+    destruct (F1 eq_refl) as [F _]. congruence.
 Qed.
 
 Definition I_retire (s : st) : Prop := forall w, wpc (ws s w) = WNbDec -> minT s < nb_threads s.
